@@ -94,7 +94,7 @@ def x_cli():
     quote = rust_char(quotes[0])
     m = need(r"\.split\(\|c:char\|c==('(?:[^'\\]|\\.)')\|\|c\.is_whitespace\(\)\)", pl, "syllable field separator")
     syl_sep = rust_char(m.group(1))
-    m = need(r"ifphrase\.contains\(\|c:char\|c==('(?:[^'\\]|\\.)')\|\|c\.is_whitespace\(\)\)\{", pl, "phrase separator test")
+    m = need(r"ifphrase\.(?:contains|chars\(\)\.any)\(\|c(?::char)?\|c==('(?:[^'\\]|\\.)')\|\|c\.is_whitespace\(\)\)\{", pl, "phrase separator test")
     phrase_sep = rust_char(m.group(1))
     m = need(r"ifsyllable_str\.starts_with\(('(?:[^'\\]|\\.)')\)\{break;\}", pl, "comment test")
     comment = rust_char(m.group(1))
